@@ -97,7 +97,9 @@ package fsnotify
 //@   ensures modeB && err == nil ==> forall(k, uint32, has(w.wd, k) <==> (has(old(w.wd), k) && old(w.wd)[k].path != p && !(rootRec && strings.HasPrefix(old(w.wd)[k].path, p + "/"))))   [C19] "and exactly the watches of that tree from the descriptor table"
 //@   ensures modeB && err == nil ==> forall(q, string, has(w.path, q) ==> w.path[q] == old(w.path)[q]) && forall(k, uint32, has(w.wd, k) ==> w.wd[k] == old(w.wd)[k])   [C19] "the remaining watches are untouched"
 //@   ensures modeB ==> TablesInv(w)                                                              [C19]
+//@   ensures modeB && err == nil ==> forall(k, uint32, has(old(w.wd), k) && !has(w.wd, k) ==> exists(j, int, 0 <= j && j < len(wds) && wds[j] == k))   [C19 C12] "every descriptor that left the table is handed back for inotify_rm_watch"
 //@   loop 1 "for p, rwd := range w.path"
+//@     invariant forall(k, uint32, has(old(w.wd), k) && !has(w.wd, k) ==> exists(j, int, 0 <= j && j < len(wds) && wds[j] == k))
 //@     invariant held(shared.mu) && w.wd != nil && w.path != nil
 //@     invariant forall(q, string, has(w.path, q) <==> (has(old(w.path), q) && q != path && !(has(visited, q) && strings.HasPrefix(q, path + "/"))))
 //@     invariant forall(q, string, has(w.path, q) ==> w.path[q] == old(w.path)[q])
@@ -110,6 +112,7 @@ package fsnotify
 //@   local wds []uint32
 //@   requires token(sawOpen)                  [C14 C13 C06] "only an operation that has seen the Watcher open goes on to use its descriptor"
 //@   mode modeA: !enableRecurse
+//@   mode modeB: enableRecurse                    [C12 C19]
 //@   requires held(shared.mu) && !held(inotify.cookiesMu) && Wf(w) && TablesInv(w.watches)
 //@   requires forall(k, uint32, has(w.watches.wd, k) ==> has(K, k) || has(Pending, k))
 //@   requires forall(k, uint32, has(K, k) ==> has(w.watches.wd, k))
@@ -122,7 +125,8 @@ package fsnotify
 //@   ensures modeA ==> KInv(w.watches)                                                            [C12]
 //@   ensures !has(P0, p) ==> errIs(err, ErrNonExistentWatch) && w.watches.wd == W0 && w.watches.path == P0   [C04 C07 C09] "Remove of an unlisted path: ErrNonExistentWatch, nothing changes"
 //@   ensures errIs(err, ErrNonExistentWatch) ==> !has(P0, p)                                      [C04 C10]
-//@   ensures has(P0, p) ==> w.watches.path == del(P0, p) && w.watches.wd == del(W0, P0[p])        [C04 C09 C12] "the entry leaves both tables"
+//@   ensures modeA && has(P0, p) ==> w.watches.path == del(P0, p) && w.watches.wd == del(W0, P0[p])        [C04 C09 C12] "the entry leaves both tables"
+//@   ensures modeB && err == nil ==> forall(k, uint32, has(K, k) ==> has(w.watches.wd, k))       [C12 C19] "after a successful Remove of a recursive watch no kernel watch is left without a table entry: every descriptor of the tree was released"
 //@   ensures has(P0, p) && err == nil ==> !has(K, P0[p])                                          [C12] "the kernel watch of a removed entry is released"
 //@   ensures has(P0, p) ==> err == nil || closed(w.done)                                          [C04 C10] "removing a listed path only fails on a closed watcher"
 //@   ensures held(shared.mu)
